@@ -33,6 +33,7 @@ type Step struct {
 	ErrText string       `json:",omitempty"` // the handler's error
 	Plain   bool         `json:",omitempty"` // error is a plain Go error rather than MessageRerror
 	ErrKind string       `json:",omitempty"` // special error values: canceled | deadline | wrap9p (see Outcome)
+	Both    bool         `json:",omitempty"` // the handler returns a message together with its error
 
 	// idle: nothing is sent for this many milliseconds; the server's read deadlines run 100
 	// times faster in such a script, so 300 ms are its 30 s idle timeout
@@ -349,6 +350,10 @@ func (e *engine) release(r *req, st Step) {
 	} else {
 		text := fmt.Sprintf("E%08x:%s", r.marker, st.ErrText)
 		out.ErrText, out.Plain, out.ErrKind = text, st.Plain, st.ErrKind
+		if st.Both {
+			out.Both, out.Msg = true, &refwire.Msg{Kind: refwire.Rwrite, Count: 0x7777}
+			e.classes["message_together_with_error"] = true
+		}
 		_, want := ErrorOf(out)
 		r.result = refwire.Canon(&refwire.Msg{Kind: refwire.Rerror, Tag: r.tag, Ename: harn.B(want)})
 		if st.ErrKind != "" {
